@@ -85,6 +85,57 @@ def c16_samples(task):
     return {"cov": cov, "viol": viol}
 
 
+def c16_chained(task):
+    """Slices of slices: a region produced by any slicing path (samples, seconds, millis, division) must
+    itself slice, and report its lengths, like a freshly built region holding the same samples."""
+    sw, ch = task
+    AR = lib()["AR"]
+    cov = {"evaluations": 0, "distinct_nontrivial": 0, "samples": []}
+    viol = []
+    sr = 8
+    for n in (3, 6):
+        data = content(n, sw, ch)
+        parent = AR(data, sr, sw, ch)
+        children = []
+        for a, b in ((1, None), (None, -1), (2, 5), (0, 0)):
+            children.append(("[%r:%r]" % (a, b), parent[a:b]))
+        children.append(("sec[0.125:0.625]", parent.seconds[0.125:0.625]))
+        children.append(("ms[125:]", parent.millis[125:]))
+        children += [("/2 piece %d" % i, p) for i, p in enumerate(parent / 2)]
+        for name, child in children:
+            smp = samples_of(child.data, sw, ch)
+            fresh = AR(child.data, sr, sw, ch)
+            m = len(smp)
+            checks = []
+            for a, b in itertools.product([None, 0, 1, -1, m, m + 1], repeat=2):
+                checks.append(("[%r:%r]" % (a, b), lambda r, a=a, b=b: r[a:b].data, b"".join(smp[a:b])))
+            for a, b in itertools.product([None, 0.0, 0.125, 0.25, -0.125], repeat=2):
+                checks.append(("sec[%r:%r]" % (a, b), lambda r, a=a, b=b: r.seconds[a:b].data, None))
+            for a, b in itertools.product([None, 0, 125, 250, -125], repeat=2):
+                checks.append(("ms[%r:%r]" % (a, b), lambda r, a=a, b=b: r.millis[a:b].data, None))
+            checks.append(("len", lambda r: len(r), m))
+            checks.append(("duration", lambda r: r.duration, m / sr))
+            checks.append(("len(ms)", lambda r: len(r.millis), round(m / sr * 1000)))
+            checks.append(("sec.len", lambda r: r.seconds.len, m / sr))
+            checks.append(("ms.len", lambda r: r.ms.len, round(m / sr * 1000)))
+            for cname, fn, want in checks:
+                cov["evaluations"] += 1
+                try:
+                    got = fn(child)
+                    ref = fn(fresh) if want is None else want
+                    msg = None if got == ref else "child %s of a %d-sample region: %s gives %r, a fresh region with the same samples gives %r" % (
+                        name, n, cname, got.hex() if isinstance(got, bytes) else got, ref.hex() if isinstance(ref, bytes) else ref)
+                except Exception as exc:
+                    msg = "child %s: %s raised %r" % (name, cname, exc)
+                if m:
+                    cov["distinct_nontrivial"] += 1
+                if msg and len(viol) < 6:
+                    viol.append(("chained sw=%d ch=%d n=%d child=%s op=%s" % (sw, ch, n, name, cname), msg,
+                                 {"kind": "c16c", "sw": sw, "ch": ch}))
+    cov["samples"].append({"chained_slicing": "children via [], seconds, millis, /2; then [], seconds, millis, len, duration", "sw": sw, "ch": ch})
+    return {"cov": cov, "viol": viol}
+
+
 def expected_view_slices(smp, sr, start_s, stop_s):
     """All sample slices the statement allows for seconds bounds (exact rationals)."""
     n = len(smp)
@@ -194,6 +245,15 @@ def c16_type_errors(rep):
         ("seconds str", lambda: r.seconds["0":1]), ("millis float", lambda: r.millis[0.5:100]),
         ("millis float stop", lambda: r.millis[0:100.0]), ("millis step", lambda: r.millis[0:100:2]),
         ("millis non-slice", lambda: r.millis[3]), ("millis str", lambda: r.millis[0:"9"]),
+        # wrongly typed bounds / steps that happen to be falsy
+        ("samples float zero start", lambda: r[0.0:3]), ("samples negative float zero", lambda: r[-0.0:3]),
+        ("samples empty str start", lambda: r["":3]), ("samples empty list start", lambda: r[[]:3]),
+        ("samples empty tuple start", lambda: r[():3]), ("samples zero step", lambda: r[::0]),
+        ("samples float zero step", lambda: r[0:2:0.0]), ("samples empty str step", lambda: r[0:2:""]),
+        ("samples float zero stop", lambda: r[0:0.0]), ("seconds empty str start", lambda: r.seconds["":1]),
+        ("seconds zero step", lambda: r.seconds[0:1:0]), ("seconds empty list stop", lambda: r.seconds[0:[]]),
+        ("millis float zero start", lambda: r.millis[0.0:300]), ("millis float zero stop", lambda: r.millis[0:0.0]),
+        ("millis zero step", lambda: r.millis[0:300:0]), ("millis empty str start", lambda: r.millis["":300]),
     ]
     for name, fn in cases:
         rep.add("evaluations")
@@ -490,7 +550,13 @@ def c18_work(task):
                 else:
                     written = r.save(Path(name), fmt)
                     written = str(written)
-                # exists_ok=False refuses to overwrite
+                # exists_ok=False refuses to overwrite - also when the name comes from placeholders
+                if writer == "save" and ext:
+                    try:
+                        r.save(tpl, fmt, exists_ok=False)
+                        complain(key, "exists_ok=False overwrote the existing file named by the placeholders", case)
+                    except FileExistsError:
+                        pass
                 if writer != "to_file":
                     try:
                         r.save(written if writer == "save" else Path(written), fmt, exists_ok=False)
@@ -572,6 +638,50 @@ def c18_work(task):
     return {"cov": cov, "viol": viol}
 
 
+def c18_large(task):
+    """load(skip, max_read) around sizes where chunked implementations change behaviour (1024..65536 samples)."""
+    sw, ch, big = task
+    L = lib()
+    auditok = L["auditok"]
+    from auditok.io import to_file
+
+    cov = {"evaluations": 0, "distinct_nontrivial": 0, "samples": []}
+    viol = []
+    sr = 8000
+    n = 2 * big + 37
+    bps = sw * ch
+    data = b"".join(int((i * 7 + c) % 120 + 1).to_bytes(sw, "little", signed=True) for i in range(n) for c in range(ch))
+    d = os.path.join(common.scratch_dir(), "c18L_%d_%d_%d" % (sw, ch, big))
+    os.makedirs(d, exist_ok=True)
+    wavf = os.path.join(d, "x.wav")
+    to_file(data, wavf, sr=sr, sw=sw, ch=ch)
+    for a in (big - 1, big, big + 1, 2 * big, 2 * big + 36):
+        for m in (None, 1, big + 1):
+            for kind in ("bytes", "wav", "wav_lazy"):
+                cov["evaluations"] += 1
+                cov["distinct_nontrivial"] += 1
+                skip = a / sr
+                mr = None if m is None else m / sr
+                exp = data[a * bps :] if m is None else data[a * bps : (a + m) * bps]
+                try:
+                    if kind == "bytes":
+                        got = auditok.load(data, skip=skip, max_read=mr, sr=sr, sw=sw, ch=ch)
+                    else:
+                        got = auditok.load(wavf, skip=skip, max_read=mr, large_file=kind.endswith("lazy"))
+                    msg = None if got.data == exp else "load(skip=%d samples, max_read=%r samples) on %s starts at sample %s and holds %d samples (expected %d from sample %d)" % (
+                        a, m, kind, (data.find(got.data[: 8 * bps]) // bps if got.data else None), len(got.data) // bps, len(exp) // bps, a)
+                except Exception as exc:
+                    msg = "load raised %r" % (exc,)
+                if msg and len(viol) < 4:
+                    viol.append(("load-large sw=%d ch=%d skip=%d max_read=%r src=%s" % (sw, ch, a, m, kind), msg,
+                                 {"kind": "c18L", "sw": sw, "ch": ch, "big": big}))
+    import shutil
+
+    shutil.rmtree(d, ignore_errors=True)
+    cov["samples"].append({"large": big, "sw": sw, "ch": ch, "skips_in_samples": [big - 1, big, big + 1, 2 * big]})
+    return {"cov": cov, "viol": viol}
+
+
 SAMPLE_ALPHABET = {1: [-128, -127, -100, -10, -1, 0, 1, 10, 100, 126, 127],
                    2: [-32768, -32767, -1000, -100, -10, -1, 0, 1, 10, 100, 1000, 32766, 32767],
                    4: [-2 ** 31, -2 ** 31 + 1, -1000, -100, -10, -1, 0, 1, 10, 100, 1000, 2 ** 31 - 2, 2 ** 31 - 1]}
@@ -618,7 +728,7 @@ def run(prop, tier):
                             "of the sample sequence; exact rational oracle for the seconds/millis views")
         c16_type_errors(rep)
         nmax = 5 if quick else 7
-        tasks = [("s", (sw, ch, nmax)) for sw, ch in FORMATS5]
+        tasks = [("s", (sw, ch, nmax)) for sw, ch in FORMATS5] + [("c", (sw, ch)) for sw, ch in FORMATS5]
         rates = [4, 8, 16, 10, 44100] if quick else [4, 8, 16, 10, 44100, 3, 22050, 48000]
         tasks += [("v", (sr, tier)) for sr in rates]
         for part in common.pmap(_c16_dispatch, tasks):
@@ -644,7 +754,8 @@ def run(prop, tier):
         tasks = [(sw, ch, sr, tier) for sw in (1, 2, 4) for ch in (1, 2, 3) for sr in ((10, 16000) if not quick else (10,))]
         if quick:
             tasks += [(2, 1, 16000, tier), (4, 2, 16000, tier)]
-        for part in common.pmap(c18_work, tasks):
+        ltasks = [("L", (sw, ch, big)) for (sw, ch) in ((2, 2), (1, 3), (2, 1)) for big in ((1024, 4096, 8192) if quick else (1024, 4096, 8192, 65536))]
+        for part in common.pmap(_c18_dispatch, [("w", t) for t in tasks] + ltasks):
             rep.merge(part)
         rep.cov["rule"] = ("one evaluation = one write/read-back or one load(skip,max_read) compared byte for byte; non-trivial "
                            "when audio is expected; all distinct")
@@ -655,7 +766,13 @@ def run(prop, tier):
     return rep.finish()
 
 
+def _c18_dispatch(t):
+    return c18_work(t[1]) if t[0] == "w" else c18_large(t[1])
+
+
 def _c16_dispatch(t):
+    if t[0] == "c":
+        return c16_chained(t[1])
     return c16_samples(t[1]) if t[0] == "s" else c16_views(t[1])
 
 
@@ -678,6 +795,9 @@ def replay(case):
             if c.get("a") == case["a"] and c.get("b") == case["b"] and c.get("n") == case["n"] and c["kind"] == k:
                 return msg
         return part["viol"][0][1] if part["viol"] else None
+    if k == "c16c":
+        part = c16_chained((case["sw"], case["ch"]))
+        return part["viol"][0][1] if part["viol"] else None
     if k == "c16t":
         c16_type_errors(rep)
     elif k.startswith("c17") and k != "c17":
@@ -689,6 +809,9 @@ def replay(case):
         c18_numpy(rep)
     elif k == "c18":
         part = c18_work((case["sw"], case["ch"], case["sr"], "quick"))
+        return part["viol"][0][1] if part["viol"] else None
+    elif k == "c18L":
+        part = c18_large((case["sw"], case["ch"], case["big"]))
         return part["viol"][0][1] if part["viol"] else None
     elif k == "c16len":
         part = c16_samples((case["sw"], case["ch"], case["n"]))
